@@ -332,6 +332,8 @@ class Pipeline:
         """
         output_to_func: dict[OUTPUT_TYPE, PipeFunc] = {}
         for f in self.functions:
+            # Renaming an output (of the pipeline or of a member function) can create a duplicate
+            validate_unique_output_names(f.output_name, output_to_func)
             output_to_func[f.output_name] = f
             if isinstance(f.output_name, tuple):
                 for name in f.output_name:
